@@ -7,6 +7,8 @@ import (
 	"encoding/binary"
 	"fmt"
 	"io"
+	"math"
+	"math/big"
 
 	secp256k1 "gitlab.com/yawning/secp256k1-voi"
 	"gitlab.com/yawning/secp256k1-voi/secec"
@@ -54,6 +56,11 @@ func (w *World) opLongHistory(step int) {
 	pub := sg.priv.PublicKey()
 	var digest [32]byte
 	bad := 0
+	// coarse statistical screen of the nonces (the private key is known, so
+	// every nonce can be extracted): how often each of the 16 top and 16
+	// bottom bits of min(k, n-k) is set
+	var bitCount [32]int
+	extracted := 0
 	for i := 0; i < n && bad < 3; i++ {
 		copy(digest[:], base)
 		binary.BigEndian.PutUint32(digest[28:], binary.BigEndian.Uint32(base[28:])+uint32(i))
@@ -129,6 +136,18 @@ func (w *World) opLongHistory(step int) {
 				bad++
 			}
 		}
+		// nonce extraction: k = s^-1 (e + r d) mod n, up to sign
+		if e, ok := ref.DigestToE(digest[:]); ok {
+			k := ref.ExtractNonce(sg.d, e, ref.OS2IP(rb), ref.OS2IP(sb))
+			if nk := new(big.Int).Sub(ref.N, k); nk.Cmp(k) < 0 {
+				k = nk
+			}
+			for b := 0; b < 16; b++ {
+				bitCount[b] += int(k.Bit(254 - b))
+				bitCount[16+b] += int(k.Bit(b))
+			}
+			extracted++
+		}
 		if rb[0] == 0 || sb[0] == 0 {
 			w.r.Probe("long_history_leading_zero_byte_events")
 			if (rb[0] == 0 && rb[1] == 0) || (sb[0] == 0 && sb[1] == 0) {
@@ -138,6 +157,26 @@ func (w *World) opLongHistory(step int) {
 				bad++
 			}
 		}
+	}
+	// Each tracked bit of min(k, n-k) is set with probability 1/2 (to within
+	// 2^-128) when the nonce is uniform on [1, n).  The bound is 8 standard
+	// deviations: a uniform nonce trips it with probability about 1e-15 per
+	// bit, a nonce with cleared / fixed / truncated high or low bits always.
+	// (A bias confined to the single top bit of k is invisible here, because
+	// k and n-k cannot be told apart from a low-s signature.)
+	if bad == 0 && extracted >= 256 {
+		lim := 4 * math.Sqrt(float64(extracted))
+		for b, c := range bitCount {
+			if math.Abs(float64(c)-float64(extracted)/2) > lim {
+				bit := 254 - b
+				if b >= 16 {
+					bit = b - 16
+				}
+				w.r.Violate("C09", "nonce-bias", fmt.Sprintf("bit%d", bit), step, "long history (%s) key=%d: bit %d of min(k, n-k) is set in %d of %d extracted nonces (a uniform nonce gives %d +- %.0f at 8 sigma): the nonce distribution is skewed", modeName, key, bit, c, extracted, extracted/2, lim)
+				break
+			}
+		}
+		w.r.Probe("long_history_nonce_bias_screens")
 	}
 	w.r.Hist("%d long history key=%d mode=%s events=%d -> sha256(r|s|v...)=%x", step, key, modeName, n, h.Sum(nil))
 	w.r.ProbeN("long_history_events", n)
